@@ -1,3 +1,4 @@
+import NA.Spec.LinuxNeg
 import NA.Proofs.C05Final
 import NA.Proofs.C05Restore
 import NA.Proofs.C05Parse
@@ -555,12 +556,34 @@ def exState : AState :=
 example : AStateOK { protoNames := false } exState :=
   ⟨by decide, by decide, by decide, by decide, by decide⟩
 
+/-- **F-C05n.**  The per-key rewriting works on the value text INCLUDING the leading `!` of a negated option:
+zeros behind the `!` are not trimmed, the protocol names are not recognised, the state list is sorted with the
+`!` glued to its first element.  Each pair below means the same (`Spec.semCompare … = "eq"`, the specification
+reading the meaning from the text) and has different normal forms, so the compare reports a change for ever;
+without the negation the same pairs have equal normal forms. -/
+theorem normalize_negated_value_counterexample :
+    (normVal (s "--dport") (s "!0:1023") ≠ normVal (s "--dport") (s "!:1023") ∧
+      normVal (s "--dport") (s "0:1023") = normVal (s "--dport") (s ":1023") ∧
+      Spec.semCompare (s "-p tcp -m tcp ! --dport 0:1023 -j ACCEPT") (s "-p tcp ! --dport :1023 -j ACCEPT") = s "eq") ∧
+    (normVal (s "-p") (s "!58") ≠ normVal (s "-p") (s "!ipv6-icmp") ∧
+      normVal (s "-p") (s "58") = normVal (s "-p") (s "ipv6-icmp") ∧
+      Spec.semCompare (s "! -p 58 -j c1") (s "-p ! IPv6-ICMP -j c1") = s "eq") ∧
+    (normVal (s "--state") (s "!NEW,ESTABLISHED") ≠ normVal (s "--state") (s "!ESTABLISHED,NEW") ∧
+      normVal (s "--state") (s "NEW,ESTABLISHED") = normVal (s "--state") (s "ESTABLISHED,NEW") ∧
+      Spec.semCompare (s "-m state ! --state NEW,ESTABLISHED -j ACCEPT") (s "-m state ! --state ESTABLISHED,NEW -j ACCEPT") = s "eq") := by
+  decide
+
+/-- The unchanged code keeps a negated range apart from the plain one, whatever the spelling of the upper bound
+(the seeded change C05-Y1 made `!1024:65535` and `1024:` equal). -/
+example : normVal (s "--dport") (s "!1024:65535") = normVal (s "--dport") (s "!1024:") ∧
+    normVal (s "--dport") (s "!1024:65535") ≠ normVal (s "--dport") (s "1024:") := by decide
+
 def obligations : List Lean.Name := [
   ``linux_routes_converge, ``linux_routes_converge_unrepaired_counterexample,
   ``linux_routes_one_hop_per_dst, ``routes_covered_linux, ``linux_addresses_stay_routed, ``linux_addresses_stay_routed_prefix, ``linux_routes_kernel_strict,
   ``iptables_diff_iff_partial, ``iptables_diff_iff_counterexample,
   ``iptables_replace_converges_partial, ``iptables_replace_converges_parsed, ``startup_iptables_file_boots_target, ``iptables_replace_converges_counterexample,
-  ``normalize_idempotent_partial, ``normalize_idempotent_counterexample,
+  ``normalize_idempotent_partial, ``normalize_idempotent_counterexample, ``normalize_negated_value_counterexample,
   ``normalize_sound_partial, ``normalize_sound_counterexample,
   ``kernel_roundtrip_partial, ``kernel_roundtrip_no_diff,
   ``kernel_roundtrip_counterexample, ``kernel_roundtrip_mask_counterexample,
